@@ -11,7 +11,8 @@ DECIDING = ["contract:permute_systems", "O2:product-form", "O3:inverse-undoes", 
             "contract:permutation_operator", "O5:swap_operator", "O6:sparse=dense", "O1:omitted-dim", "H1:repeat-call", "O1:many-subsystems"]
 RULE = ("cases = every permutation of n<=4 subsystems (random ones for n=5,6) x random independent row/column local "
         "dimensions in 1..4 x flags x dtype x memory layout x dim calling form, entries are unique ids; a signature is "
-        "(monitor, kind, n, flags, rectangular?) and is non-trivial when the permutation is not the identity")
+        "(monitor, kind, n, flags, rectangular?) and is non-trivial when the permutation is not the identity; plus 9..13 subsystems (most of local "
+        "dimension 1 or 2), omitted-dim calls with inexact integer roots, and repeat calls with the same ndarray index objects")
 CASE_TIMEOUT = {"quick": 240, "thorough": 3000}
 ASSUMPTIONS = [
     "reference model = NumPy C-order reshape/transpose of the (row dims + col dims) tensor; exact comparison (array_equal)",
